@@ -1,7 +1,14 @@
 (** Correspondence cases for C10: the optimiser models on binary64, with the executable [reverse]
-    tape ([Base/Tape.v]) as gradient, against the implementation's outcome. *)
+    tape ([Base/Tape.v]) as gradient, against the implementation's outcome.
+
+    LM, END-TO-END cases ([CLmE]): no table of inner solves.  [damped.solve(jtr)] and [jtj.inv()] are computed
+    by C01's executable models of [Solve<Vector>::solve] and [Matrix::inv] ([mat_solve_vec], [mat_inv],
+    Model/SolveInst.v: LU with partial pivoting, substitutions) on binary64, so whole LM runs (residuals and
+    Jacobians through the tape, normal equations, damping, LU solve, gain ratio, covariance) are reproduced
+    bit for bit by one Gallina term.  The recorded-table cases [CLm] are kept: they localise a disagreement. *)
 From Coq Require Import List Floats ZArith Bool.
-From Compute Require Export Base.Ops Base.ListMat Base.Tape Model.Reduce Model.MatMul Model.Optim.
+From Compute Require Export Base.Ops Base.ListMat Base.Tape Model.Reduce Model.MatMul Model.Optim
+  Model.Subst Model.Cholesky Model.LU Model.Solve Model.SolveInst.
 Import ListNotations.
 
 Definition runs := list (nat * outcome (list float)).
@@ -18,7 +25,10 @@ Inductive case :=
    [invs]: recorded calls [jtj.inv()] as (matrix data, result data) *)
 | CLm (e : expr float) (data : list (list float)) (eps1 eps2 tau : float) (ps : list float) (rs : runs)
       (solves : list (list float * list float * list float)) (invs : list (list float * list float))
-      (tbl : libm_table).
+      (tbl : libm_table)
+(* the same runs with the inner solves computed by C01's model instead of looked up *)
+| CLmE (e : expr float) (data : list (list float)) (eps1 eps2 tau : float) (ps : list float) (rs : runs)
+       (tbl : libm_table).
 
 Section WithTable.
   Variable tbl : libm_table.
@@ -124,6 +134,17 @@ Section WithTable.
                    (lookup_solve solves) (lookup_inv invs) h k ps))
     | _ => Panic
     end.
+
+  Definition run_lm_e2e e (data : list (list float)) (h : lm_hp (T:=float)) (ps : list float) (k : nat)
+    : outcome (list float) :=
+    match data with
+    | [xs; ys] =>
+        if negb (length xs =? length ys) then Panic
+        else opt_out (option_map (fun r => fst r ++ snd r)
+               (lm F (lm_resid e xs ys) (lm_jac0 e xs) (lm_jac1 e xs)
+                   (mat_solve_vec F) (fun m => option_map (@dat float) (mat_inv F m)) h k ps))
+    | _ => Panic
+    end.
 End WithTable.
 
 Definition check_runs (f : nat -> outcome (list float)) (rs : runs) : bool :=
@@ -138,4 +159,6 @@ Definition check (c : case) : bool :=
       check_runs (run_sgd tbl e data {| s_step := st; s_mom := mom; s_nesterov := nest |} ps) rs
   | CLm e data eps1 eps2 tau ps rs solves invs tbl =>
       check_runs (run_lm tbl e data {| l_eps1 := eps1; l_eps2 := eps2; l_tau := tau |} solves invs ps) rs
+  | CLmE e data eps1 eps2 tau ps rs tbl =>
+      check_runs (run_lm_e2e tbl e data {| l_eps1 := eps1; l_eps2 := eps2; l_tau := tau |} ps) rs
   end.
